@@ -64,4 +64,15 @@ def jobs(tier):
                    "cls": "B", "bound": bound, "cbmc": TB, "timeout": 600,
                    "assumed": ["file names modelled as opaque handles: fnameEqual == handle equality, fnameCopy == identity",
                                "allocator stub (stoResize == realloc)"]})
+    # ---- message grouping and sorting (comsg.c) ----
+    for nm, defs, kind in (("comsg.comsgReportFile.grouping_and_order", [], "obligation"),
+                           ("canary.comsg.comsgReportFile", ["-DCANARY_comsg"], "canary")):
+        js.append({"name": nm, "src": "comsg_h.c", "entry": "h_comsgReportFile", "defs": defs, "kind": kind,
+                   "functions": ["comsgReportFile", "comsgCmpPtr", "lisort", "sposCmp", "sposGlobalLine"],
+                   "splice": {"comsg.c": {"_rename_def": {"comsgReportLine": "comsgReportLine__real"}}},
+                   "inputs": ["n", "sort", "p0", "p1", "p2", "gi"], "native": False, "cls": "B",
+                   "bound": "<= 3 messages, positions on lines below 2^31", "link": ["srcpos.c", "util.c:-Dbug=util_c_bug"],
+                   "checks": ["--no-standard-checks", "--no-malloc-may-fail"],
+                   "cbmc": ["--object-bits", "12", "--unwind", "6"], "timeout": 600,
+                   "assumed": ["comsgReportLine (the printer) is replaced by a recording model; the definition is renamed mechanically on every run"]})
     return js
